@@ -59,15 +59,34 @@ class C13(core.Prop):
     def _seed(self, case):
         return case['seed'] if case['seed'] is not None else 99
 
+    def _variants(self, case):
+        return [dict(case['opts'], tag=tag, **case['prune']) for tag in (False, True)]
+
+    def _recorded(self, case):
+        key = json.dumps(case, sort_keys=True)
+        if getattr(self, '_rk', None) != key:
+            self._rk = key
+            self._rv = [rx.run_extract_recorded(case['examples'], o, case['size'], self._seed(case), case['form'])
+                        for o in self._variants(case)]
+        return self._rv
+
     def model_ops(self, case):
-        if not rx.nosampling(case['examples'], case['opts'], case['size']):
+        if not rx.modelled(case['examples'], case['opts']):
             return []
-        return [rx.model_extract_op(case['examples'], dict(case['opts'], tag=tag, **case['prune']), case['form'])
-                for tag in (False, True)]
+        if rx.nosampling(case['examples'], case['opts'], case['size']):
+            return [rx.model_extract_op(case['examples'], o, case['form']) for o in self._variants(case)]
+        ops = []
+        for o, (res, exc, picks) in zip(self._variants(case), self._recorded(case)):
+            if exc is not None or any(not isinstance(x, list) for p in picks for x in p):
+                return []
+            ops.append(rx.model_sampled_op(case['examples'], o, case['size'], picks, case['form']))
+        self.count('sampled_traces')
+        return ops
 
     def impl_outputs(self, case):
-        return [rx.impl_rex(case['examples'], dict(case['opts'], tag=tag, **case['prune']), case['size'],
-                            self._seed(case), case['form']) for tag in (False, True)]
+        if rx.nosampling(case['examples'], case['opts'], case['size']):
+            return [rx.impl_rex(case['examples'], o, case['size'], self._seed(case), case['form']) for o in self._variants(case)]
+        return [{'exc': type(exc).__name__} if exc is not None else {'rex': list(res)} for res, exc, _ in self._recorded(case)]
 
     def canon_model(self, case, outs):
         return rx.canon_rex(outs)
@@ -107,8 +126,12 @@ class C13(core.Prop):
                 if not any(re.fullmatch(cr, s) for s in case['examples'] if s is not None):
                     dialect = case['opts'].get('dialect', 'portable')
                     key = 'matches-no-example'
+                    def ascii_digits(x):
+                        return ''.join('5' if (c.isdecimal() and not '0' <= c <= '9') else c for c in x)
                     if dialect in ('portable', 'grep') and '[0-9]' in r and any(
-                            c.isdecimal() and not '0' <= c <= '9' for s in kept for c in s):
+                            ascii_digits(s) != s and re.fullmatch(cr, ascii_digits(s)) for s in kept):
+                        # cause established: the expression matches an example once its non-ASCII decimal digits are
+                        # replaced by ASCII ones (the C03 finding: the digit class is rendered [0-9])
                         key += ':non-ascii-decimal-digit:' + dialect
                     fail('matches-no-example', 'tag=%s: %r matches none of %r' % (tag, r, case['examples'][:6]), key)
         # tagging changes only the grouping
